@@ -57,7 +57,26 @@ MANIFEST = dict(
          '(corr_attrs). '
          'The kernel interpreter and the transliteration are themselves tied to CPython: fixed and random __exit__ bodies '
          'of the subset run against mock objects under result oracles and must perform the same calls and end the same '
-         'way as walk (exit_tree ..).',
+         'way as walk (exit_tree ..). '
+         'Round 4 (SM/AtomicRetry.v): what a refused operation raises is a run class (an OSError that is no named '
+         'subclass, each of 8 named subclasses — PermissionError, FileExistsError, IsADirectoryError, ... —, '
+         'KeyboardInterrupt); with_class r o specialises the handler classes of __exit__ to that class, so every theorem '
+         'about objects holds per class and all 34 instance obligations are discharged for every class. The statement '
+         'language has for-range loops with break / continue / else; a retried rename gives a chain of rename nodes; '
+         'collapse merges refused attempts and a proved stutter simulation transfers the theorems to protocols with '
+         'retries (c12_retry_*, c12_property = the whole property in one statement); proto_outcome_ok => the with '
+         'statement returns normally exactly when a rename succeeded (any protocol); the family with a retried rename is '
+         'good iff exhausting the attempts takes the failure path, the three other continuations refuted for every number '
+         'of attempts (the unconditional commit after the loop is seeded c12_6). The statements of make_tempfile before '
+         'mkdir are a generated program too: entry_inert (they touch nothing whenever no temp file is open; the shape of '
+         'seeded c12_5 is refuted). Executed: every operation x 14 exception classes (4 errno values of plain OSError, '
+         '8 subclasses, FileNotFoundError, KeyboardInterrupt) x persistent / refused 1, 2, 3, 5 times, single writers, '
+         'BSP.save and reuse histories, compared with the tree machine of the class; reuse histories of one writer '
+         'interleaved with an open second writer at every pair of operation boundaries, judged by the oracle and compared '
+         'with prunt aw_proto (SM/AtomicProduct.v): c12_product_isolated proves, for every history of uses of A and every '
+         'interleaving with B, that B\'s destination is old or complete new, that A and B never hold the same temp name, '
+         'that the temp file B holds keeps exactly what B has written, and that nothing else changes (the round-1 '
+         'invariant, re-based at A\'s destination, survives the restart of A).',
     note='Trusted: Coq kernel + vm_compute, translate/c12_atomic.py (transliteration only: the symbolic execution is in '
          'the kernel; both are tied by the executed correspondences, the CPython one by sampling), the interposer in checks/c12.py (FileIO subclass + patched '
          'io.open/os.*), POSIX rename atomicity and O_EXCL (modelled, not verified), page cache surviving a process kill '
@@ -70,10 +89,20 @@ MANIFEST = dict(
          'object facts (_object_facts in the translator) are read, not proved; they are tied by the executed attribute '
          'correspondence. Attribute values outside None/True/False/handle/temp name/destination/exception are "unknown" '
          '(reading one is outside the model: obligation exit_no_unmodelled_step). make_tempfile called while a temp file '
-         'is open (nested entry: "not reentrant") is not covered.',
+         'is open (nested entry: "not reentrant") is not covered. Run classes: all refused operations of one run raise '
+         'the same class (mixed classes in one run are not modelled; when no handler names a subclass the trees are equal '
+         'for all classes and the restriction is void). InterruptedError / BlockingIOError are not injected into raw writes '
+         '(io.BufferedWriter gives them a meaning of its own); a persistent FileExistsError at open is not injected (the '
+         'unbounded temp-name loop cannot end). The reuse theorems need proto_ok of the uncollapsed protocol: histories of '
+         'an object WITH a retry loop are executed and compared, not proved. The reuse x concurrent-writer product theorem is '
+         'for protocols without retries (proto_safe), one concurrent writer, and a history that ends at the first use that '
+         'is killed or leaves its temp file; A\'s own destination across the history is covered by c12_reuse_history (A '
+         'alone) and by the oracle (A with B). Loops other than `for <name> in range(<literal>)`, a loop variable that is read, `raise <OSError '
+         'subclass>(..)` fail closed.',
 )
 
-IMPORTS = ['SV.SM.AtomicWriter', 'SV.SM.AtomicExit', 'SV.SM.AtomicReuse', 'SV.Gen.AtomicWriter_gen', 'Coq.Lists.List', 'Coq.Bool.Bool',
+IMPORTS = ['SV.SM.AtomicWriter', 'SV.SM.AtomicExit', 'SV.SM.AtomicReuse', 'SV.SM.AtomicRetry', 'SV.SM.AtomicProduct',
+           'SV.Gen.AtomicWriter_gen', 'Coq.Lists.List', 'Coq.Bool.Bool',
            'Coq.Arith.PeanoNat']
 PRE = 'Import ListNotations.\n'
 
@@ -105,16 +134,83 @@ class BodyError(Exception):
     """Raised by the caller's body in 'raise' scenarios."""
 
 
+class HangError(BaseException):
+    """Raised inside the implementation when a run performs far too many file-system operations or does not come back
+    in time (a fault made it loop): the run ends as a failing input, not as a hung check."""
+
+
+MAX_OPS = 20000          # no scenario comes near (BSP.save: a few hundred raw writes)
+RUN_SECONDS = 30         # wall-clock limit of one call into the implementation (normal: milliseconds; 5x rule: the
+#                          slowest run, a BSP.save under persistent sleeping retries of a mutated tree, takes < 2 s)
+
+
+class deadline:
+    """SIGALRM around one call into the implementation (main thread only; elsewhere the operation cap alone applies)."""
+
+    def __init__(self, seconds: int = RUN_SECONDS) -> None:
+        self.seconds = seconds
+        self.on = False
+
+    def __enter__(self) -> 'deadline':
+        import signal
+        if threading.current_thread() is threading.main_thread():
+            def boom(signum: int, frame: Any) -> None:
+                raise HangError(f'no result after {self.seconds} s')
+            self.old = signal.signal(signal.SIGALRM, boom)
+            signal.alarm(self.seconds)
+            self.on = True
+        return self
+
+    def __exit__(self, *a: Any) -> None:
+        import signal
+        if self.on:
+            signal.alarm(0)
+            signal.signal(signal.SIGALRM, self.old)
+
+
+# The exceptions a refused file-system operation is made to raise.  name -> (constructor, run class of the model:
+# 'generic' = an OSError that is no named subclass, 'sub:<Class>' = that subclass of OSError, 'kbd' = not an OSError
+# at all, None = oracle only (FileNotFoundError means "the file is gone" in the model, not "refused")).
+def _oserr(code: int) -> Callable[[str], BaseException]:
+    return lambda name: OSError(code, 'injected fault', name)       # the constructor picks the subclass from errno
+
+
+FAULT_CLASSES: dict[str, tuple[Callable[[str], BaseException], str | None]] = {
+    'OSError:EIO': (_oserr(errno.EIO), 'generic'),
+    'OSError:ENOSPC': (_oserr(errno.ENOSPC), 'generic'),
+    'OSError:EROFS': (_oserr(errno.EROFS), 'generic'),
+    'OSError:EBUSY': (_oserr(errno.EBUSY), 'generic'),
+    'PermissionError:EACCES': (_oserr(errno.EACCES), 'sub:PermissionError'),
+    'PermissionError:EPERM': (_oserr(errno.EPERM), 'sub:PermissionError'),
+    'FileExistsError': (_oserr(errno.EEXIST), 'sub:FileExistsError'),
+    'IsADirectoryError': (_oserr(errno.EISDIR), 'sub:IsADirectoryError'),
+    'NotADirectoryError': (_oserr(errno.ENOTDIR), 'sub:NotADirectoryError'),
+    'InterruptedError': (_oserr(errno.EINTR), 'sub:InterruptedError'),
+    'BlockingIOError': (_oserr(errno.EAGAIN), 'sub:BlockingIOError'),
+    'TimeoutError': (_oserr(errno.ETIMEDOUT), 'sub:TimeoutError'),
+    'FileNotFoundError': (_oserr(errno.ENOENT), None),
+    'KeyboardInterrupt': (lambda name: KeyboardInterrupt(), 'kbd'),
+}
+assert all(type(mk('x')).__name__ == n.split(':')[0] for n, (mk, _r) in FAULT_CLASSES.items())
+
+
 # =============================================================================================== interposition
 class FsSim:
     """In-process interposition of the file API below `root`: records every mutating operation, can kill the process
     before the (crash_at+1)-th operation, inject one OSError, and hand control to a scheduler between operations."""
 
     def __init__(self, root: str, bufsize: int = 8192, fault_at: int | None = None, crash_at: int | None = None,
-                 sched: 'Sched | None' = None) -> None:
+                 sched: 'Sched | None' = None, plan: dict | None = None) -> None:
         self.root = os.path.realpath(root) + os.sep
         self.bufsize = bufsize
         self.fault_at = fault_at
+        # plan = {'at': k, 'cls': name in FAULT_CLASSES, 'times': n | None}: operation k is refused with that exception,
+        # and so are the next operations of the same kind on the same name — all of them (times None: persistent) or
+        # until `times` operations have been refused (transient: then it succeeds)
+        self.plan = plan
+        self.plan_sig: tuple | None = None
+        self.plan_left = 0
+        self.use_by_w: dict[int, int] = {}
         self.crash_at = crash_at
         self.sched = sched
         self.ops: list[dict] = []
@@ -162,10 +258,24 @@ class FsSim:
             self.n += 1
             k = self.n
             ph, exc = self.phase.get(w, ('pre', False))
-            rec = dict(k=k, w=w, op=op, name=name, res='ok', phase=ph, exc=exc, inj=inj, u=self.use_idx, **kw)
+            rec = dict(k=k, w=w, op=op, name=name, res='ok', phase=ph, exc=exc, inj=inj,
+                       u=self.use_by_w.get(w, self.use_idx), **kw)
             self.ops.append(rec)
         if self.crash_at is not None and k == self.crash_at + 1:
             os._exit(77)
+        if k > MAX_OPS:
+            raise HangError(f'more than {MAX_OPS} file-system operations')
+        if inj and self.plan is not None:
+            # the temp-name loop moves on to another name: "the same operation" of an open is an open in that directory
+            sig = (op, os.path.dirname(name) if op == 'open' else name)
+            if self.plan_sig is None and k == self.plan['at']:
+                self.plan_sig = sig
+                self.plan_left = self.plan['times'] if self.plan.get('times') is not None else 1 << 60
+            if self.plan_sig == sig and self.plan_left > 0:
+                self.plan_left -= 1
+                rec['res'] = 'fault'
+                rec['cls'] = self.plan['cls']
+                raise FAULT_CLASSES[self.plan['cls']][0](name)
         if inj and (self.fault_at == k or (isinstance(self.fault_at, (set, frozenset)) and k in self.fault_at)):
             rec['res'] = 'fault'
             raise OSError(errno.EIO, 'injected fault', name)
@@ -277,10 +387,10 @@ class RawSpy(io.FileIO):
     def close(self) -> None:
         if self.closed:
             return
-        err = None
+        err: BaseException | None = None
         try:
             self._sim.begin('close', self._nm)
-        except OSError as e:        # a failing close(2) still releases the descriptor
+        except (OSError, KeyboardInterrupt) as e:        # a failing close(2) still releases the descriptor
             err = e
         super().close()
         if err is not None:
@@ -424,13 +534,26 @@ def bsp_break(b: Any, brk: str) -> None:
         raise ValueError(brk)
 
 
-def run_single(sc: dict, root: str, fault_at: Any = None, crash_at: int | None = None) -> dict:
+def _outcome(e: BaseException) -> str:
+    """How a `with` statement ended, as a string: body / oserror[:Class] / kbd / hang / other:..."""
+    if isinstance(e, BodyError):
+        return 'body'
+    if isinstance(e, OSError):
+        return 'oserror' if e.errno == errno.EIO else f'oserror:{type(e).__name__}'
+    if isinstance(e, KeyboardInterrupt):
+        return 'kbd'
+    if isinstance(e, HangError):
+        return f'hang:{e}'
+    return f'other:{type(e).__name__}:{e}'
+
+
+def run_single(sc: dict, root: str, fault_at: Any = None, crash_at: int | None = None, plan: dict | None = None) -> dict:
     """Run one scenario on the real code. Returns ops, outcome and final listing (not in crash mode: the child dies)."""
     populate(root, sc)
     dest = os.path.join(root, sc['dest'])
-    sim = FsSim(root, sc.get('bufsize', 8192), fault_at, crash_at)
+    sim = FsSim(root, sc.get('bufsize', 8192), fault_at, crash_at, plan=plan)
     outcome = 'ok'
-    with sim:
+    with sim, deadline():
         AWSpy = make_spy_class(sim)
         try:
             if sc.get('bsp'):
@@ -456,12 +579,8 @@ def run_single(sc: dict, root: str, fault_at: Any = None, crash_at: int | None =
                 aw = AWSpy(dest, is_bytes=not sc.get('text'), **({'encoding': sc['encoding']} if sc.get('text') else {}))
                 with aw as f:
                     body_plain(sc)(f)
-        except BodyError:
-            outcome = 'body'
-        except OSError as e:
-            outcome = 'oserror' if e.errno == errno.EIO else f'oserror:{type(e).__name__}'
-        except Exception as e:     # anything else escaping is itself reported
-            outcome = f'other:{type(e).__name__}:{e}'
+        except (Exception, KeyboardInterrupt, HangError) as e:     # anything unexpected escaping is itself reported
+            outcome = _outcome(e)
     return dict(ops=sim.ops, outcome=outcome, listing=listing(root))
 
 
@@ -723,8 +842,10 @@ def _single_scenario(ck0: Ck, work: Path, si: int, sc: dict, do_model: bool, cas
         replace_k = next((o['k'] for o in ops0 if o['op'] == 'replace'), None)
         raise_k = next((o['k'] for o in ops0 if o['phase'] == 'exit'), len(ops0) + 1) if raising else None
 
+        seen_cases: set = set()
+
         def add_case(cut: int, faults: list[int], real_events, real_listing: dict, real_committed, what: dict,
-                     cmp_tmp_content: bool) -> None:
+                     cmp_tmp_content: bool, proto: str = 'aw_proto') -> None:
             if not do_model or patho:
                 return
             if real_events is None:
@@ -733,12 +854,23 @@ def _single_scenario(ck0: Ck, work: Path, si: int, sc: dict, do_model: bool, cas
                     ck.obligation(name, False, what.get('why', 'operation outside the model'))
                     ck.tie_broken.append('correspondence AtomicWriter trace: ' + what.get('why', ''))
                 return
+            # a run class whose protocol the kernel found equal to the generic one: the same model case
+            m_rc = proto.removeprefix('(class_proto aw_obj ').removesuffix(')')
+            if proto != 'aw_proto' and ck.extra.get('class_same_protocol', {}).get(m_rc):
+                proto = 'aw_proto'
             # pre_ok = false: BSP.save's rebuild phase raises, the writer is never entered (save_alone in the model)
-            coq = (f'corr_case_t aw_proto {"false" if pre_fail else "true"} {nm.coq_init()} {scen_coq} {cut} '
+            coq = (f'corr_case_t {proto} {"false" if pre_fail else "true"} {nm.coq_init()} {scen_coq} {cut} '
                    f'{coq_list(map(str, faults))} '
                    f'{coq_list(nm.probe_names(max_tmp))}')
             if pre_fail:
                 real_committed = None       # the writer never starts: there is no outcome of a `with` to compare
+            # the same model case with the same observations of the real run (an OSError of another errno / class at the
+            # same operation, handled alike by the code and by the model) is compared once
+            dkey = (coq, repr(real_events), repr(sorted(real_listing.items())), real_committed, cmp_tmp_content)
+            if dkey in seen_cases:
+                ck.count('model_cases_single_same_as_an_earlier_one')
+                return
+            seen_cases.add(dkey)
             cases.append(dict(coq=coq, events=real_events, listing=real_listing, committed=real_committed, nm=nm,
                               replaced=any(e[0] == 4 and e[3] == 0 for e in real_events),
                               wmap=wmap, max_tmp=max_tmp, what=what, cmp_tmp=cmp_tmp_content, sc=sc))
@@ -811,7 +943,7 @@ def _single_scenario(ck0: Ck, work: Path, si: int, sc: dict, do_model: bool, cas
             d = lst.get(sc['dest'])
             committed = r['outcome'] == 'ok'
             cleanup_fault = hit[0]['op'] == 'unlink'
-            if r['outcome'].startswith('other'):
+            if r['outcome'].startswith(('other', 'hang')):
                 ck.violation(f'unexpected-exception-after-{at}-fault', r['outcome'], replay_obj('fault', sc, k=k))
             if r['outcome'] != 'ok' and d != old:
                 ck.violation('dest-named-like-temp-file' if patho else f'dest-changed-after-{at}-fault',
@@ -847,7 +979,7 @@ def _single_scenario(ck0: Ck, work: Path, si: int, sc: dict, do_model: bool, cas
                 ck.hist('double_fault_ops', at2)
                 lst2 = r2['listing']
                 rp2 = replay_obj('fault', sc, k=[k, k2])
-                if r2['outcome'] == 'ok' or r2['outcome'].startswith('other'):
+                if r2['outcome'] == 'ok' or r2['outcome'].startswith(('other', 'hang')):
                     ck.violation(f'unexpected-outcome-after-two-faults:{at2}', r2['outcome'], rp2)
                 if lst2.get(sc['dest']) != old:
                     ck.violation('dest-named-like-temp-file' if patho else f'dest-changed-after-two-faults:{at2}',
@@ -861,6 +993,111 @@ def _single_scenario(ck0: Ck, work: Path, si: int, sc: dict, do_model: bool, cas
                 ev2, why2 = canon_events(r2['ops'], nm, wtok)
                 add_case(len(r2['ops']) + 5, [i for i, e in enumerate(ev2 or []) if e[3] == 3], ev2, lst2, False,
                          {'run': f'OSErrors at ops {k} ({at}) and {k2}', 'scenario': sc_json(sc), 'why': why2}, False)
+
+
+        # ---- every exception class at every operation, refused for good or only k times (round 4)
+        _class_runs(ck, sc, fresh, ops0, old, new, init_names, raising, patho, pre_fail, nm, wtok, add_case)
+
+
+# Which exception a refused operation raises, and for how long.  None = persistent (every further attempt of the same
+# operation on the same name is refused as well); k = refused k times, then accepted.
+CLASS_TIMES: list[int | None] = [None, 1, 2, 3, 5]
+CLASS_SCENARIOS = ('buffered', 'unbuffered', 'stale-temp', 'new-subdir', 'text', 'raise-after-1', 'new-file',
+                   'bsp-save-buf512', 'bsp-save-fresh-path-buf512', 'bsp-save-body-raises')
+# not injected into raw writes: io.BufferedWriter itself retries EINTR for ever and gives EAGAIN a meaning of its own
+# (partial write), below the code under test
+NOT_AT_WRITES = ('InterruptedError', 'BlockingIOError')
+CLASS_MODEL = True
+
+
+def coq_run_class(ck: Ck, cls: str) -> str | None:
+    """The run class of SM/AtomicRetry.v for an injected exception class (None: not modelled)."""
+    rc = FAULT_CLASSES[cls][1]
+    if rc is None:
+        return None
+    if rc == 'generic':
+        return 'RGeneric'
+    if rc == 'kbd':
+        return 'RKbd'
+    table = (ck.extra.get('translated', {}).get('AtomicWriter_gen', {}) or {}).get('subclasses') or []
+    name = rc.split(':')[1]
+    return f'(RSub {table.index(name)})' if name in table else None
+
+
+def _class_runs(ck: Any, sc: dict, fresh: Callable[[str], str], ops0: list[dict], old: bytes | None, new: bytes | None,
+                init_names: set[str], raising: bool, patho: bool, pre_fail: bool, nm: 'NameMap', wtok: Callable,
+                add_case: Callable) -> None:
+    if patho or pre_fail or not (ck.thorough or sc['kind'] in CLASS_SCENARIOS):
+        return
+    bsp = bool(sc.get('bsp'))
+    wks = [o['k'] for o in ops0 if o['op'] == 'write']
+    keepw = set(wks[:1] + wks[-1:]) if (bsp or not is_big(ck)) else set(wks[:2] + wks[-2:] + wks[len(wks) // 2:len(wks) // 2 + 1])
+    names = list(FAULT_CLASSES)
+    if bsp and not is_big(ck):
+        names = ['OSError:ENOSPC', 'PermissionError:EACCES', 'IsADirectoryError', 'FileNotFoundError', 'KeyboardInterrupt']
+    for o in ops0:
+        if not o['inj'] or (o['op'] == 'write' and o['k'] not in keepw):
+            continue
+        at = op_label(o)
+        for cls in names:
+            cname = cls.split(':')[0]
+            if o['op'] == 'write' and (cname in NOT_AT_WRITES or (not escalated(ck) and cls not in (
+                    'OSError:ENOSPC', 'PermissionError:EACCES', 'KeyboardInterrupt'))):
+                continue
+            hits_persistent = None
+            for times in CLASS_TIMES:
+                if times is None and cname == 'FileExistsError' and o['op'] == 'open':
+                    continue      # "every name is taken, for ever": the unbounded temp-name loop cannot end, by design
+                if times is not None and hits_persistent is not None and times >= hits_persistent:
+                    continue      # the persistent run gave up after that many refusals: the same run again
+                plan = dict(at=o['k'], cls=cls, times=times)
+                r = run_single(sc, fresh('class'), plan=plan)
+                hit = [x for x in r['ops'] if x['res'] == 'fault']
+                if times is None:
+                    hits_persistent = len(hit)
+                if not hit:
+                    break
+                mode = 'persistent' if times is None else 'transient'
+                ck.count('class_fault_runs')
+                ck.seen(('class', sc['kind'], sc.get('bufsize'), o['k'], cls, times))
+                ck.hist('class_fault', f'{at}:{cname}:{mode}')
+                ck.hist('class_fault_refusals', len(hit))
+                rp = replay_obj('fault-class', sc, plan=plan)
+                key = lambda what: f'errclass:{what}:{at}:{cname}:{mode}'
+                how = (f'{cls} injected into operation {o["k"]} ({at})'
+                       + (' and every further attempt' if times is None else f', {len(hit)} time(s), then accepted') + ': ')
+                lst = r['listing']
+                d = lst.get(sc['dest'])
+                outc = r['outcome']
+                if outc.startswith(('other', 'hang')):
+                    ck.violation(key('hang' if outc.startswith('hang') else 'unexpected-exception'), how + outc, rp)
+                    continue
+                if outc == 'ok' and times is None:
+                    ck.violation(key('refused-operation-reported-as-success'),
+                                 how + f'the operation never succeeded, yet the with statement returned normally '
+                                       f'(destination holds {d!r:.40}, directory {sorted(lst)})', rp)
+                if cname == 'KeyboardInterrupt' and outc != 'kbd' and times is None:
+                    ck.violation(key('keyboard-interrupt-did-not-propagate'), how + f'the with statement ended with {outc}', rp)
+                if outc != 'ok' and d != old:
+                    ck.violation(key('dest-changed-after-failure'),
+                                 how + f'the write failed ({outc}) but the destination holds {d!r:.60} instead of the '
+                                       f'previous {old!r:.40}', rp)
+                if outc == 'ok' and d != new:
+                    ck.violation(key('success-reported-but-destination-not-new'),
+                                 how + f'the with statement returned normally but the destination holds {d!r:.60}', rp)
+                extra = set(lst) - init_names - {sc['dest']}
+                # "the file is gone" said by a refused cleanup unlink is believed: the carve-out of the property
+                if extra and not any(x['op'] == 'unlink' for x in hit):
+                    ck.violation(key('temp-left'), how + f'{sorted(extra)} stayed in the directory (outcome {outc})', rp)
+                for n0, v0 in sc['init'].items():
+                    if n0 != sc['dest'] and lst.get(n0) != v0:
+                        ck.violation(key('foreign-file-touched'), how + f'{n0} changed', rp)
+                rcls = coq_run_class(ck, cls) if CLASS_MODEL else None
+                if rcls is None or (cname == 'FileExistsError' and o['op'] == 'open') or bsp and not is_big(ck):
+                    continue
+                evf, whyf = canon_events(r['ops'], nm, wtok)
+                add_case(len(r['ops']) + 5, [i for i, e in enumerate(evf or []) if e[3] == 3], evf, lst, outc == 'ok',
+                         {'run': how, 'scenario': sc_json(sc), 'why': whyf}, False, proto=f'(class_proto aw_obj {rcls})')
 
 
 def eval_cases(ck: Ck, cases: list[dict], tag: str) -> None:
@@ -999,13 +1236,13 @@ def bsp_scenarios(ck: Ck) -> list[dict]:
 # S (the body returns) / B (the body raises after some writes); OSErrors are injected on top.  What survives a use is
 # the object's instance attributes: every use must behave like the single use of a fresh object in the directory the
 # previous use left (c12_reuse_history), whatever came before it.
-def run_history(hs: dict, root: str, fault_at: Any = None, crash_at: int | None = None) -> dict:
+def run_history(hs: dict, root: str, fault_at: Any = None, crash_at: int | None = None, plan: dict | None = None) -> dict:
     populate(root, hs)
     dest = os.path.join(root, hs['dest'])
-    sim = FsSim(root, hs.get('bufsize', 8192), fault_at, crash_at)
+    sim = FsSim(root, hs.get('bufsize', 8192), fault_at, crash_at, plan=plan)
     outcomes: list[str] = []
     listings: list[dict[str, bytes]] = [listing(root)]
-    with sim:
+    with sim, deadline():
         AWSpy = make_spy_class(sim)
         aw = AWSpy(dest, is_bytes=not hs.get('text'), **({'encoding': hs['encoding']} if hs.get('text') else {}))
         sim.snaps = []
@@ -1017,14 +1254,17 @@ def run_history(hs: dict, root: str, fault_at: Any = None, crash_at: int | None 
             try:
                 with aw as f:
                     body_plain(use)(f)
-            except BodyError:
-                outcome = 'body'
-            except OSError as e:
-                outcome = 'oserror' if e.errno == errno.EIO else f'oserror:{type(e).__name__}'
-            except Exception as e:
-                outcome = f'other:{type(e).__name__}:{e}'
+            except (Exception, KeyboardInterrupt) as e:
+                outcome = _outcome(e)
+            except HangError as e:
+                outcome = _outcome(e)
             outcomes.append(outcome)
             listings.append(listing(root))
+            if outcome.startswith('hang'):
+                break
+        while len(outcomes) < len(hs['uses']):       # a hung use ends the history: the later uses are not run
+            outcomes.append(outcomes[-1])
+            listings.append(listings[-1])
     return dict(ops=sim.ops, outcomes=outcomes, listings=listings, snaps=sim.snaps, dest=dest)
 
 
@@ -1121,7 +1361,7 @@ def coq_astate(a: list[str | None]) -> str:
     return coq_list('None' if v is None else f'(Some {v})' for v in a)
 
 
-def attr_case(r: dict, per_use: list[dict], names: list[str]) -> tuple[str, list[dict]] | None:
+def attr_case(r: dict, per_use: list[dict], names: list[str], objterm: str = 'aw_obj') -> tuple[str, list[dict]] | None:
     """The instance attributes of the real object after __init__, inside every body and after every __exit__ of one
     executed history -> the arguments of corr_attrs (SM/AtomicReuse.v) + what each row stands for."""
     snaps, dest = r.get('snaps') or [], r['dest']
@@ -1148,7 +1388,7 @@ def attr_case(r: dict, per_use: list[dict], names: list[str]) -> tuple[str, list
                     f'{coq_astate(m)}, {coq_astate(a)})')
         info.append(dict(use=u + 1, before=cur, body_raised=aft[0][2], exit_call_results=oracle, inside_body=m, after=a))
         cur = a
-    return f'corr_attrs aw_obj {coq_astate(init_abs)} {coq_list(rows)}', [dict(after_init=init_abs)] + info
+    return f'corr_attrs {objterm} {coq_astate(init_abs)} {coq_list(rows)}', [dict(after_init=init_abs)] + info
 
 
 def _prev_class(word: str, outcomes: list[str], u: int) -> str:
@@ -1195,8 +1435,9 @@ def history_campaign(ck: Ck, do_model: bool) -> None:
         nm = NameMap(hs)
         obj_names = list((ck.extra.get('translated', {}).get('AtomicWriter_gen', {}).get('obj') or {}).get('names', []))
 
-        def judge(r: dict, fault: Any, how: str) -> None:
-            """Oracle on every use of one executed history + one model case for the whole history."""
+        def judge(r: dict, fault: Any, how: str, objterm: str | None = 'aw_obj') -> None:
+            """Oracle on every use of one executed history + one model case for the whole history (`objterm`: the object
+            of the model, specialised to the run class of the injected exception; None: oracle only)."""
             rp = hist_replay_obj('history', hs, fault)
             per_use: list[dict] | None = []
             for u, use in enumerate(hs['uses']):
@@ -1207,9 +1448,11 @@ def history_campaign(ck: Ck, do_model: bool) -> None:
                 pos = _prev_class(hs['word'], r['outcomes'], u)
                 what = (f'history {hs["word"]}, use {u + 1} ({"body raises" if raising else "body returns"}'
                         f'{", OSError in " + op_label(hit[0]) if hit else ""}; {pos.replace("-", " ")}): ')
-                cause = f'{op_label(hit[0])}-fault' if hit else ('body-exception' if raising else 'success')
+                cause = ((f'{op_label(hit[0])}-{hit[0]["cls"].split(":")[0]}-fault' if hit[0].get('cls') else f'{op_label(hit[0])}-fault')
+                         if hit else ('body-exception' if raising else 'success'))
+                transient = isinstance(fault, dict) and fault.get('times') is not None     # refused k times, then accepted
                 exp_out = 'body' if raising else 'ok'
-                if (not hit and outc != exp_out) or (hit and (outc == 'ok' or outc.startswith('other'))):
+                if (not hit and outc != exp_out) or (hit and ((outc == 'ok' and not transient) or outc.startswith(('other', 'hang')))):
                     ck.violation(f'reuse:unexpected-outcome-after-{cause}:{pos}', what + f'the with statement ended with {outc}', rp)
                 d = after.get(hs['dest'])
                 if outc == 'ok' and d != news[u]:
@@ -1236,7 +1479,7 @@ def history_campaign(ck: Ck, do_model: bool) -> None:
                     ck.violation(f'reuse:entry-does-not-start-afresh:{pos}',
                                  what + f'the use starts with {first} {uops[0]["name"]} (left over from the previous use)', rp)
                 ck.seen(('history', hs['kind'], repr(fault), u))
-                if not modelled or per_use is None:
+                if not modelled or per_use is None or objterm is None:
                     continue
 
                 def wtok(n: int, o: dict, u: int = u) -> int:
@@ -1264,13 +1507,13 @@ def history_campaign(ck: Ck, do_model: bool) -> None:
                 per_use.append(dict(events=evs, listing=after, returned=outc == 'ok', cut=len(uops) + 5, exit_calls=calls,
                                     replaced=any(e[0] == 4 and e[3] == 0 for e in evs),
                                     faults=[i for i, e in enumerate(evs) if e[3] == 3]))
-            if modelled and per_use:
+            if modelled and per_use and objterm is not None:
                 # the whole history in the model: every use starts in the directory the model's previous use left
                 max_tmp = max([e[1] for pu in per_use for e in pu['events'] if e[0] != 0]
                               + [NameMap.tmp_index(b) or 0 for b in nm.init] + [1]) + 1
                 uses = coq_list(f'({scens[u]}, {pu["cut"]}, {coq_list(map(str, pu["faults"]))})' for u, pu in enumerate(per_use))
-                cases.append(dict(coq=f'corr_hist aw_obj {uses} (dir_of {nm.coq_init()}) {coq_list(nm.probe_names(max_tmp))}',
-                                  uses=per_use, nm=nm, wmap=wall, max_tmp=max_tmp, attrs=attr_case(r, per_use, obj_names),
+                cases.append(dict(coq=f'corr_hist {objterm} {uses} (dir_of {nm.coq_init()}) {coq_list(nm.probe_names(max_tmp))}',
+                                  uses=per_use, nm=nm, wmap=wall, max_tmp=max_tmp, attrs=attr_case(r, per_use, obj_names, objterm),
                                   what={'run': how, 'history': hs['kind'], 'fault': repr(fault)}))
 
         judge(base, None, 'fault-free history')
@@ -1284,6 +1527,27 @@ def history_campaign(ck: Ck, do_model: bool) -> None:
             ck.count('history_fault_runs')
             ck.hist('history_fault_op', op_label(o))
             judge(r, o['k'], f'OSError at operation {o["k"]} ({op_label(o)}) of the history')
+        # ---- round 4: an exception of a named class / KeyboardInterrupt, persistently, at every operation that is no raw
+        # write (the same operation of the later uses is refused as well: a failed use follows a failed use)
+        if nuse >= 2 and (hi % 4 == 0 or ck.thorough):
+            for o in ops0:
+                if not o['inj'] or o['op'] == 'write':
+                    continue
+                for cls in (['PermissionError:EACCES', 'KeyboardInterrupt'] if not is_big(ck) else
+                            ['PermissionError:EACCES', 'KeyboardInterrupt', 'IsADirectoryError', 'OSError:ENOSPC']):
+                    for times in (None, 2):
+                        plan = dict(at=o['k'], cls=cls, times=times)
+                        r = run_history(hs, fresh('class'), plan=plan)
+                        nhit = sum(1 for x in r['ops'] if x['res'] == 'fault')
+                        if not nhit or (times is not None and nhit < 2):
+                            continue      # transient: only when the operation was indeed attempted again
+                        ck.count('history_class_fault_runs')
+                        ck.hist('history_class_fault', f'{op_label(o)}:{cls.split(":")[0]}:{"persistent" if times is None else "transient"}')
+                        rcls = coq_run_class(ck, cls)
+                        same = ck.extra.get('class_same_protocol', {}).get(rcls or '')
+                        judge(r, plan, f'{cls} at operation {o["k"]} ({op_label(o)}) of the history, '
+                                       f'{"persistent" if times is None else "the first 2 attempts"}',
+                              None if rcls is None else ('aw_obj' if same else f'(with_class {rcls} aw_obj)'))
         # ---- a kill before every operation of the later uses (the first use is the single-writer campaign)
         if nuse < 2 or (hi % 3 and not escalated(ck)):
             continue
@@ -1399,6 +1663,7 @@ def run_two(scs: tuple[dict, dict], root: str, prefix: list[int], init: dict[str
     sched = Sched(2)
     sim = FsSim(root, 1, fault_at, None, sched)
     outcomes = ['ok', 'ok']
+    per_use: list[list[str]] = [[], []]
     executed: list[int] = []
     enabled: list[list[int]] = []
     with sim:
@@ -1407,16 +1672,26 @@ def run_two(scs: tuple[dict, dict], root: str, prefix: list[int], init: dict[str
         def worker(w: int) -> None:
             sim.wids[threading.get_ident()] = w
             sc = scs[w]
+            # a writer is one AtomicWriter object; `uses` (round 4) makes it a reuse history: one `with` block per entry
+            uses = sc.get('uses') or [sc]
             try:
-                with AWSpy(os.path.join(root, sc['dest']), is_bytes=not sc.get('text'),
-                           **({'encoding': 'utf8'} if sc.get('text') else {})) as f:
-                    body_plain(sc)(f)
-            except BodyError:
-                outcomes[w] = 'body'
-            except OSError as e:
-                outcomes[w] = f'oserror:{type(e).__name__}'
-            except BaseException as e:
-                outcomes[w] = f'other:{type(e).__name__}:{e}'
+                aw = AWSpy(os.path.join(root, sc['dest']), is_bytes=not sc.get('text'),
+                           **({'encoding': 'utf8'} if sc.get('text') else {}))
+                for u, use in enumerate(uses):
+                    sim.use_by_w[w] = u
+                    sim.set_phase('pre')
+                    out = 'ok'
+                    try:
+                        with aw as f:
+                            body_plain(use)(f)
+                    except BodyError:
+                        out = 'body'
+                    except OSError as e:
+                        out = f'oserror:{type(e).__name__}'
+                    except BaseException as e:
+                        out = f'other:{type(e).__name__}:{e}'
+                    outcomes[w] = out
+                    per_use[w].append(out)
             finally:
                 sched.done(w)
         ths = [threading.Thread(target=worker, args=(w,), daemon=True) for w in (0, 1)]
@@ -1436,7 +1711,7 @@ def run_two(scs: tuple[dict, dict], root: str, prefix: list[int], init: dict[str
                 break
         for t in ths:
             t.join(timeout=10)
-    return dict(ops=sim.ops, outcomes=outcomes, executed=executed, enabled=enabled, listing=listing(root))
+    return dict(ops=sim.ops, outcomes=outcomes, per_use=per_use, executed=executed, enabled=enabled, listing=listing(root))
 
 
 class Pair:
@@ -1492,13 +1767,13 @@ def two_check(ck: Ck, P: Pair, r: dict, fault_at: int | None, do_model: bool, ca
                 ck.violation('two-writers:unexpected-outcome' + sfx, f'writer {w} ended with {r["outcomes"][w]}', rp)
             continue
         if P.same_dest:
-            if r['outcomes'][w] == 'ok' or r['outcomes'][w].startswith('other'):
+            if r['outcomes'][w] == 'ok' or r['outcomes'][w].startswith(('other', 'hang')):
                 ck.violation('two-writers:unexpected-outcome-with-fault',
                              f'writer {w} got an OSError in {hit[0]["op"]} but ended with {r["outcomes"][w]}', rp)
             continue
         exp_out = 'ok' if s.get('raise_after') is None else 'body'
         if w == fw:
-            if r['outcomes'][w] == 'ok' or r['outcomes'][w].startswith('other'):
+            if r['outcomes'][w] == 'ok' or r['outcomes'][w].startswith(('other', 'hang')):
                 ck.violation('two-writers:unexpected-outcome-with-fault',
                              f'writer {w} got an OSError in {hit[0]["op"]} but ended with {r["outcomes"][w]}', rp)
             if lst.get(s['dest']) != init.get(s['dest']):
@@ -1637,6 +1912,206 @@ def two_writer_campaign(ck: Ck, do_model: bool) -> None:
         eval_cases2(ck, cases)
 
 
+def product_campaign(ck: Ck, do_model: bool = False) -> None:
+    """Reuse histories x concurrent writers (round 4): writer A is ONE AtomicWriter object used for a word of `with`
+    blocks (S = body returns, B = body raises, F = an OSError is injected into the rename of that use), writer B is an
+    ordinary single-use writer to another file of the same directory.  Every pair of operation boundaries (A has
+    completed k1 operations of its whole history, B k2 of its single use) is reached as A^k1 B^k2 and (thorough tier, and
+    every other pair in the quick tier) as B^k2 A^k1; then the rest runs A first.  So B is open — holds a temp name —
+    at every point of every use of A, in particular while A is entered again.  Oracle only (the model has no product of
+    histories and concurrent writers): every use of A ends as its letter says, both destinations hold the content of
+    their writer's last successful use (or the previous content), nothing is left, nothing else is touched, and no
+    writer opens, renames or removes a temp name the other writer holds."""
+    work = str(ck.scratch / 'c12_product')
+    big = is_big(ck)
+    cases: list[dict] = []
+    init = {'a.bin': b'OLDA', 'b.bin': b'OLDB', 'keep.txt': b'k'}
+    words = ['SS', 'BS', 'FS'] + (['SB', 'SSS', 'FB', 'SFS'] if escalated(ck) else [])
+    B = dict(dest='b.bin', chunks=[b'B1', b'B2'])
+    variants = [(w, False) for w in words] + ([('SS', True)] if escalated(ck) else [])
+    for word, text in variants:
+        uses = []
+        for u, ch in enumerate(word):
+            chunk: Any = b'A%d' % u
+            uses.append(dict(chunks=[chunk.decode() + '\n' if text else chunk], **({'raise_after': 1} if ch == 'B' else {})))
+        A = dict(dest='a.bin', uses=uses, chunks=[], **({'text': True} if text else {}))
+        seq = run_two((A, B), work, [0] * 200, init)
+        opsA = [o for o in seq['ops'] if o['w'] == 0]
+        n1, n2 = len(opsA), sum(1 for o in seq['ops'] if o['w'] == 1)
+        # F: the rename of that use of A is refused (global number of the operation when A runs first up to there)
+        faults = [next(o['k'] for o in opsA if o['u'] == u and o['op'] == 'replace') for u, ch in enumerate(word) if ch == 'F']
+        fault_at = faults[0] if faults else None
+        seen_sched: set[tuple[int, ...]] = set()
+        nrun = 0
+        for k1 in range(n1 + 1):
+            if fault_at is not None and k1 < fault_at:
+                continue          # the fault is addressed by its number in A's own sequence: A must get there first
+            for k2 in range(n2 + 1):
+                orders = [[0] * k1 + [1] * k2]
+                if fault_at is None and (big or (k1 + k2) % 2):
+                    orders.append([1] * k2 + [0] * k1)
+                for prefix in orders:
+                    r = run_two((A, B), work, prefix + [0] * 200, init, fault_at=fault_at)
+                    ex = tuple(r['executed'])
+                    if ex in seen_sched:
+                        continue
+                    seen_sched.add(ex)
+                    nrun += 1
+                    ck.count('product_runs')
+                    ck.seen(('product', word, text, ex))
+                    ck.hist('product_word', word + ('-text' if text else ''))
+                    product_check(ck, word, A, B, init, r, fault_at)
+                    if do_model and not text:
+                        product_case(word, A, B, init, r, cases)
+        ck.extra.setdefault('product', {})[word + ('-text' if text else '')] = {'runs': nrun, 'ops': [n1, n2]}
+    if do_model and cases:
+        eval_product_cases(ck, cases)
+
+
+def product_case(word: str, A: dict, B: dict, init: dict[str, bytes], r: dict, cases: list[dict]) -> None:
+    """One executed product run -> corr_product aw_proto (SM/AtomicProduct.v): A's uses become segments, every model
+    event is scheduled in the segment of the use of A that is running or comes next."""
+    nm = NameMap({'init': init, 'dest': 'a.bin'}, dests=['a.bin', 'b.bin'])
+    wmap: dict[int, tuple[int, bytes]] = {}
+    off = 0
+    for j, ch in enumerate(B['chunks']):
+        wmap[90 + j + 1] = (off, ch)
+        off += len(ch)
+    scenB = coq_scen(1, [90 + j + 1 for j in range(len(B['chunks']))], [], None)
+    merged: list[tuple[int, int, int, list[int]]] = []       # (global op number, writer, use of A or -1, event)
+    nuse = len(A['uses'])
+    scens = []
+    for u, use in enumerate(A['uses']):
+        tok = 10 * (u + 1) + 1
+        wmap[tok] = (0, use['chunks'][0])
+        scens.append(coq_scen(0, [tok], [], use.get('raise_after')))
+
+        def wtokA(n: int, oo: dict, u: int = u) -> int:
+            t = 10 * (u + 1) + n
+            return t if wmap.get(t) == (oo['off'], oo['data']) else 0
+        evs, _why, ks = canon_events_k([o for o in r['ops'] if o['w'] == 0 and o['u'] == u], nm, wtokA)
+        if evs is None:
+            cases.append(dict(coq=None, what={'word': word, 'schedule': r['executed'], 'why': _why}))
+            return
+        merged += [(k, 0, u, e) for k, e in zip(ks, evs)]
+
+    def wtokB(n: int, oo: dict) -> int:
+        return 90 + n if wmap.get(90 + n) == (oo['off'], oo['data']) else 0
+    evs, _why, ks = canon_events_k([o for o in r['ops'] if o['w'] == 1], nm, wtokB)
+    if evs is None:
+        cases.append(dict(coq=None, what={'word': word, 'schedule': r['executed'], 'why': _why}))
+        return
+    merged += [(k, 1, -1, e) for k, e in zip(ks, evs)]
+    merged.sort()
+    # the segment of an event of B: the use of A that comes next (the last one when A is done)
+    segs: list[list[str]] = [[] for _ in range(nuse)]
+    nxt = nuse - 1
+    for k, w, u, e in reversed(merged):
+        if w == 0:
+            nxt = u
+        segs[nxt if w == 1 else u].insert(0, f'({"true" if w else "false"}, {"true" if e[3] == 3 else "false"})')
+    # uses of A that were never started (an earlier use left its temp file) have no events: the model history ends there too
+    last = max([u for _k, w, u, _e in merged if w == 0] + [0])
+    h = coq_list(f'({scens[u]}, {coq_list(segs[u])})' for u in range(last + 1))
+    max_tmp = 4
+    cases.append(dict(coq=f'corr_product aw_proto {scenB} {h} {nm.coq_init()} {coq_list(nm.probe_names(max_tmp))}',
+                      events=[[w] + e for _k, w, _u, e in merged], listing=r['listing'], nm=nm, wmap=wmap, max_tmp=max_tmp,
+                      outA=(r['per_use'][0][last] if last < len(r['per_use'][0]) else None), outB=r['outcomes'][1],
+                      cleanup_fault=any(o['res'] == 'fault' and o['op'] == 'unlink' for o in r['ops']),
+                      what={'word': word, 'schedule': r['executed']}))
+
+
+def eval_product_cases(ck: Ck, cases: list[dict]) -> None:
+    bad: list[dict] = [{'what': c['what']} for c in cases if c['coq'] is None]
+    good = [c for c in cases if c['coq'] is not None]
+    n = 0
+    for lo in range(0, len(good), 600):
+        part = good[lo:lo + 600]
+        vals = ck.coq_eval(IMPORTS, [coq_list(c['coq'] for c in part)], name='aw_product', preamble=PRE)
+        if vals is None:
+            ck.obligation('correspondence:product', False, 'model could not be evaluated')
+            ck.tie_broken.append('correspondence AtomicWriter (product): model evaluation failed')
+            return
+        for c, res in zip(part, parse_coq_nested(vals[0])):
+            n += 1
+            ck.count('model_cases_product')
+            pc1, pc2, events, probes = res
+            nm: NameMap = c['nm']
+            diffs: list[dict] = []
+            if events != c['events']:
+                diffs.append({'events_model': events, 'events_real': c['events']})
+            if c['outA'] is not None and (pc1[2] == 0) != (c['outA'] == 'ok'):
+                diffs.append({'model_pc_A': pc1, 'real_outcome_of_the_last_use_of_A': c['outA']})
+            if (pc2[2] == 0) != (c['outB'] == 'ok'):
+                diffs.append({'model_pc_B': pc2, 'real_outcome_of_B': c['outB']})
+            for b, enc in zip(nm.probe_bases(c['max_tmp']), probes):
+                toks = opt_content(enc)
+                real = c['listing'].get(b)
+                if c['cleanup_fault'] and NameMap.tmp_index(b) is not None and b not in nm.init:
+                    if (toks is None) != (real is None):
+                        diffs.append({'name': b, 'model_present': toks is not None, 'real_present': real is not None})
+                    continue
+                exp = nm.expect_bytes(toks, c['wmap'])
+                if exp != real:
+                    diffs.append({'name': b, 'model': repr(exp)[:60], 'real': repr(real)[:60]})
+            if diffs:
+                bad.append({'what': c['what'], 'diffs': diffs[:6]})
+    ck.obligation('correspondence:product', not bad,
+                  f'{n} executed runs of a reuse history of one real writer interleaved with a second writer vs corr_product '
+                  f'aw_proto (prunt, SM/AtomicProduct.v: A restarts at mkdir after every finished use): {len(bad)} disagreements')
+    if bad:
+        ck.tie_broken.append('correspondence AtomicWriter (product): real trace/directory differs from the model')
+        ck.extra['product_disagreements'] = bad[:5]
+
+
+def product_check(ck: Ck, word: str, A: dict, B: dict, init: dict[str, bytes], r: dict, fault_at: int | None) -> None:
+    lst = r['listing']
+    rp = {'mode': 'product', 'word': word, 'a': {**A, 'uses': [_hexsc(u) for u in A['uses']]}, 'b': _hexsc(B),
+          'init': {n: v.hex() for n, v in init.items()}, 'schedule': r['executed'], 'fault_at': fault_at,
+          'how': './check C12 --replay <this file>: writer 0 is one AtomicWriter object used once per letter of `word`, '
+                 'writer 1 a single-use writer; `schedule` says whose operation comes next'}
+    key = lambda what: f'two-writers-reuse:{what}:{word}'
+    hit = [o for o in r['ops'] if o['res'] == 'fault']
+    # writer A, use by use
+    expA = init.get('a.bin')
+    for u, ch in enumerate(word):
+        got = r['per_use'][0][u] if u < len(r['per_use'][0]) else '<not run>'
+        faulted = any(o['w'] == 0 and o['u'] == u for o in hit)
+        want = 'body' if ch == 'B' else 'ok'
+        if (not faulted and got != want) or (faulted and (got == 'ok' or got.startswith(('other', 'hang')))):
+            ck.violation(key('unexpected-outcome'), f'use {u + 1} ({ch}) of the reused writer ended with {got}, '
+                                                    f'B is open in between (schedule {r["executed"][:24]})', rp)
+        if got == 'ok':
+            expA = _data({**A, 'chunks': A['uses'][u]['chunks']})
+    if lst.get('a.bin') != expA:
+        ck.violation(key('destination-of-the-reused-writer-wrong'), f'a.bin holds {lst.get("a.bin")!r:.40}, expected {expA!r:.40}', rp)
+    if r['outcomes'][1] != 'ok':
+        ck.violation(key('other-writer-failed'), f'the single-use writer ended with {r["outcomes"][1]}', rp)
+    if lst.get('b.bin') != _data(B):
+        ck.violation(key('destination-of-the-other-writer-clobbered'),
+                     f'b.bin holds {lst.get("b.bin")!r:.40}, expected {_data(B)!r:.40}', rp)
+    extra = set(lst) - set(init)
+    if extra and not any(o['op'] == 'unlink' for o in hit):
+        ck.violation(key('temp-left'), f'{sorted(extra)} left', rp)
+    for n0, v0 in init.items():
+        if n0 not in ('a.bin', 'b.bin') and lst.get(n0) != v0:
+            ck.violation(key('foreign-file-touched'), f'{n0} changed', rp)
+    held: dict[int, str] = {}
+    for o in r['ops']:
+        other = 1 - o['w'] if o['w'] in (0, 1) else None
+        if other is None or NameMap.tmp_index(os.path.basename(o['name'])) is None:
+            continue
+        if o['op'] in ('open', 'replace', 'unlink') and o['res'] == 'ok' and held.get(other) == o['name'] \
+                and held.get(o['w']) != o['name']:
+            ck.violation(key(f'{o["op"]}-of-a-temp-name-the-other-writer-holds'),
+                         f'writer {o["w"]} performed {o["op"]} on {o["name"]} while writer {other} was writing to it '
+                         f'(operation {o["k"]})', rp)
+        if o['op'] == 'open' and o['res'] == 'ok':
+            held[o['w']] = o['name']
+        elif o['op'] in ('replace', 'unlink') and o['res'] == 'ok' and held.get(o['w']) == o['name']:
+            held.pop(o['w'], None)
+
+
 def _hexsc(s: dict) -> dict:
     return {**s, 'chunks': [c.hex() if isinstance(c, bytes) else c for c in s['chunks']]}
 
@@ -1696,8 +2171,9 @@ def eval_cases2(ck: Ck, cases: list[dict]) -> None:
 # oracle of results, (2) transliterated by the translator and walked in the kernel with the same oracle.  The calls
 # performed, their results and how the function ends (returns / raises or lets the body's exception through) must agree.
 class _Orc:
-    def __init__(self, results: list[int]) -> None:
+    def __init__(self, results: list[int], refuse: Callable[[str], BaseException] | None = None) -> None:
         self.results, self.pos, self.log = results, 0, []
+        self.refuse = refuse or (lambda what: OSError(errno.EIO, what))     # what a refused operation raises
 
     def next(self, op: int) -> int:
         r = self.results[self.pos] if self.pos < len(self.results) else 0
@@ -1714,7 +2190,7 @@ class _MockTemp:
 
     def close(self) -> None:
         if self._orc.next(0) == 1:
-            raise OSError(errno.EIO, 'mock close')
+            raise self._orc.refuse('mock close')
 
     def __exit__(self, *a: Any) -> None:
         self.close()
@@ -1727,7 +2203,7 @@ class _MockPath:
     def replace(self, dst: Any) -> None:
         r = self._orc.next(1)
         if r == 1:
-            raise OSError(errno.EIO, 'mock replace')
+            raise self._orc.refuse('mock replace')
         if r == 2:
             raise FileNotFoundError('mock replace')
     rename = replace
@@ -1735,7 +2211,7 @@ class _MockPath:
     def unlink(self, missing_ok: bool = False) -> None:
         r = self._orc.next(2)
         if r == 1:
-            raise OSError(errno.EIO, 'mock unlink')
+            raise self._orc.refuse('mock unlink')
         if r == 2 and not missing_ok:
             raise FileNotFoundError('mock unlink')
 
@@ -1782,6 +2258,8 @@ def gen_exit_source(rng: Any) -> str:
             a = f'not ({a})'
         return a
 
+    loops = [0]
+
     def block(depth: int, ind: str, n: int) -> list[str]:
         out: list[str] = []
         for _ in range(n):
@@ -1790,6 +2268,18 @@ def gen_exit_source(rng: Any) -> str:
 
     def stmt(depth: int, ind: str) -> list[str]:
         k = rng.random()
+        if loops[0] and rng.random() < 0.22:
+            return [ind + rng.choice(['break', 'break', 'continue'])]
+        if depth < 3 and rng.random() < 0.10:
+            # for _ in range(n): ... [else: ...]   (a retry loop is one of these)
+            loops[0] += 1
+            out = [ind + f'for _ in range({rng.choice([0, 1, 2, 3])}):'] + block(depth + 1, ind + '    ', rng.choice([1, 2, 2]))
+            loops[0] -= 1
+            if rng.random() < 0.5:
+                out += [ind + 'else:'] + block(depth + 1, ind + '    ', 1)
+            return out
+        if rng.random() < 0.03:
+            return [ind + 'time.sleep(0)']
         if k < 0.30 and calls[0] < 5:
             return [ind + call()]
         if k < 0.42:
@@ -1806,7 +2296,8 @@ def gen_exit_source(rng: Any) -> str:
             nh = rng.choice([0, 1, 1, 2])
             fin = rng.random() < 0.55 or nh == 0
             classes = rng.sample(['OSError', 'FileNotFoundError', 'Exception', '(FileNotFoundError, KeyError)', 'KeyError',
-                                  'BaseException', 'IOError'], nh)
+                                  'BaseException', 'IOError', 'PermissionError', 'PermissionError', 'IsADirectoryError',
+                                  '(PermissionError, FileExistsError)', 'KeyboardInterrupt'], nh)
             if nh and rng.random() < 0.2:
                 classes[-1] = ''
             for c in classes:
@@ -1950,13 +2441,82 @@ CORPUS_EXIT = [
         self.temp.close()
         self._temp_name.unlink()
 """,
+    # round 4: a bounded retry of the rename on PermissionError, with else: raise (good) ...
+    """def __exit__(self, exc_type, exc_value, tback):
+    temp, self.temp = self.temp, None
+    committed = False
+    try:
+        if temp is not None:
+            temp.__exit__(exc_type, exc_value, tback)
+        if exc_type is None:
+            for _ in range(3):
+                try:
+                    self._temp_name.replace(self.filename)
+                    break
+                except PermissionError:
+                    time.sleep(0)
+            else:
+                raise RuntimeError()
+            committed = True
+    finally:
+        if not committed and self._temp_name is not None:
+            try:
+                self._temp_name.unlink()
+            except FileNotFoundError:
+                pass
+""",
+    # ... and without the else clause (the shape of seeded c12_6): falls out of the loop as if it had succeeded
+    """def __exit__(self, exc_type, exc_value, tback):
+    temp, self.temp = self.temp, None
+    committed = False
+    try:
+        if temp is not None:
+            temp.__exit__(exc_type, exc_value, tback)
+        if exc_type is None:
+            for _ in range(3):
+                try:
+                    self._temp_name.replace(self.filename)
+                    break
+                except PermissionError:
+                    time.sleep(0)
+            committed = True
+    finally:
+        if not committed and self._temp_name is not None:
+            try:
+                self._temp_name.unlink()
+            except FileNotFoundError:
+                pass
+""",
+    # break / continue through a finally; the else clause of a loop that was left by break is skipped
+    """def __exit__(self, exc_type, exc_value, tback):
+    for _ in range(2):
+        try:
+            self._temp_name.unlink()
+            continue
+        except OSError:
+            break
+        finally:
+            self.temp.close()
+    else:
+        self._temp_name.replace(self.filename)
+""",
+    # a handler naming KeyboardInterrupt, one naming Exception: which of them sees a refused operation depends on the class
+    """def __exit__(self, exc_type, exc_value, tback):
+    try:
+        self.temp.close()
+    except KeyboardInterrupt:
+        self._temp_name.unlink()
+        raise
+    except Exception:
+        self._temp_name.replace(self.filename)
+""",
 ]
 
 
 def interp_correspondence(ck: Ck) -> None:
     import ast as _ast
     import contextlib
-    nprog = budget(ck, 120, 600)
+    nprog = 600 if ck.thorough else budget(ck, 100, 160)
     progs: list[tuple[str, str]] = []          # (python source, coq term)
     rejected = 0
     sources = list(CORPUS_EXIT)
@@ -1972,14 +2532,26 @@ def interp_correspondence(ck: Ck) -> None:
         progs.append((src, term))
     oracles = [[], [1] * 6, [2] * 6, [0, 1], [0, 2], [0, 0, 1], [1, 0, 2]] + \
               [[ck.rng.choice([0, 0, 1, 2]) for _ in range(6)] for _ in range(3)]
+    # run classes: what result 1 (refused) makes the mocks raise, and the program specialised to that class in the kernel
+    table = c12_atomic.SUBCLASSES
+    runs: list[tuple[str, Callable[[str], BaseException] | None, list[list[int]]]] = [('RGeneric', None, oracles)]
+    few = [[1] * 6, [0, 1, 1, 0, 1, 2]]
+    for cname in ('PermissionError', 'IsADirectoryError'):
+        runs.append((f'(RSub {table.index(cname)})', (lambda what, c=getattr(builtins, cname): c(errno.EACCES, what)), few))
+    runs.append(('RKbd', lambda what: KeyboardInterrupt(), few))
+
+    def runs_of(src: str) -> list:
+        """A named subclass is only interesting for a program one of whose handlers names it (otherwise it is caught
+        exactly like the generic OSError); KeyboardInterrupt differs for every handler of OSError / Exception."""
+        return [r for r in runs if not r[0].startswith('(RSub') or table[int(r[0][6:-1])] in src]
     bad: list[dict] = []
     n = 0
     for lo in range(0, len(progs), 60):
         part = progs[lo:lo + 60]
         exprs = []
         for _src, term in part:
-            walks = '; '.join(f'walk (exit_tree p {"true" if exc else "false"}) {coq_list(map(str, o))}'
-                              for exc in (False, True) for o in oracles)
+            walks = '; '.join(f'walk (exit_tree (spec_stmt {rc} p) {"true" if exc else "false"}) {coq_list(map(str, o))}'
+                              for rc, _mk, orcs in runs_of(_src) for exc in (False, True) for o in orcs)
             exprs.append(f'let p := {term} in [{walks}]')
         vals = ck.coq_eval(IMPORTS, [coq_list(exprs)], name='aw_interp', preamble=PRE)
         if vals is None:
@@ -1988,14 +2560,16 @@ def interp_correspondence(ck: Ck) -> None:
             return
         res = parse_coq_nested(vals[0])
         for (src, _term), rows in zip(part, res):
-            ns: dict[str, Any] = {'os': _MockOs, 'suppress': contextlib.suppress, 'contextlib': contextlib}
+            import time as _time_mod
+            ns: dict[str, Any] = {'os': _MockOs, 'suppress': contextlib.suppress, 'contextlib': contextlib, 'time': _time_mod}
             exec(compile(src, '<generated __exit__>', 'exec'), ns)
             fn = ns['__exit__']
             it = iter(rows)
-            for exc in (False, True):
-                for o in oracles:
+            for rc, mk, orcs in runs_of(src):
+              for exc in (False, True):
+                for o in orcs:
                     log_m, fin_m = next(it)
-                    orc = _Orc(list(o))
+                    orc = _Orc(list(o), mk)
                     obj = type('W', (), {})()
                     obj.temp, obj._temp_name, obj.filename = _MockTemp(orc), _MockPath(orc), object()
                     ei = (ValueError, ValueError('body'), None) if exc else (None, None, None)
@@ -2015,9 +2589,10 @@ def interp_correspondence(ck: Ck) -> None:
                     else:
                         ok = (log_m, fin_m) == (orc.log, fin_r)
                     if len(orc.log) >= 1:
-                        ck.seen(('interp', hash(src) & 0xffffffff, exc, tuple(o)))
+                        ck.seen(('interp', hash(src) & 0xffffffff, rc, exc, tuple(o)))
+                    ck.hist('interp_run_class', rc)
                     if not ok:
-                        bad.append({'source': src, 'body_raised': exc, 'oracle': o, 'model': [log_m, fin_m],
+                        bad.append({'source': src, 'run_class': rc, 'body_raised': exc, 'oracle': o, 'model': [log_m, fin_m],
                                     'cpython': [orc.log, fin_r]})
     ck.extra['interpreter_programs'] = {'compared': len(progs), 'rejected_by_translator': rejected}
     ck.obligation('correspondence:exit-interpreter', not bad,
@@ -2030,6 +2605,94 @@ def interp_correspondence(ck: Ck) -> None:
                      f'model {bad[0]["model"]} vs CPython {bad[0]["cpython"]} (body_raised={bad[0]["body_raised"]}, '
                      f'oracle={bad[0]["oracle"]}) on\n{bad[0]["source"]}', bad[0])
         ck.explain('correspondence:exit-interpreter')
+
+
+def class_table_correspondence(ck: Ck) -> None:
+    """The table behind the run classes — which handler class catches which exception in flight when the refused
+    operations of a run raise a given class (catches (spec_class r k) e in SM/AtomicRetry.v, the class terms written by
+    translate/c12_atomic.py) — against CPython's own exception hierarchy, EXHAUSTIVELY: every class name the translator
+    accepts in a handler x every run class x every exception in flight (the refused operation's, FileNotFoundError,
+    AttributeError / RuntimeError for "anything else")."""
+    import ast as _ast
+    T = c12_atomic
+    names = sorted(T.CLASS_ALL | T.CLASS_EXC | T.CLASS_OSERROR | T.CLASS_NOENT | set(T.SUBCLASSES) | {'KeyboardInterrupt'} | T.CLASS_NEVER)
+    tr = T._ExitTr(_ast.parse('def __exit__(self, a, b, c): pass').body[0])
+    runs: list[tuple[str, BaseException]] = [('RGeneric', OSError(errno.EIO, 'x')), ('RKbd', KeyboardInterrupt())]
+    for i, n in enumerate(T.SUBCLASSES):
+        runs.append((f'(RSub {i})', getattr(builtins, n)()))
+    rows, truth, what = [], [], []
+    for h in names + ['']:
+        k = tr.classes(_ast.Name(id=h, ctx=_ast.Load()) if h else None)      # '' = a bare `except:`
+        hcls = getattr(builtins, h) if h else BaseException
+        for rc, inst in runs:
+            rows.append(f'map (fun e => existsb (fun k => catches (spec_class {rc} k) e) {k}) [XOSErr; XNoEntErr; XOther]')
+            truth.append([isinstance(inst, hcls), isinstance(FileNotFoundError(), hcls),
+                          isinstance(AttributeError(), hcls)])
+            if isinstance(AttributeError(), hcls) != isinstance(RuntimeError(), hcls):
+                truth[-1][2] = None       # the model has one "anything else": the two must agree
+            what.append((h or '<bare except>', rc))
+    vals = ck.coq_eval(IMPORTS, [coq_list(rows)], name='aw_class_table', preamble=PRE)
+    bad: list[dict] = []
+    if vals is None:
+        bad.append({'why': 'model could not be evaluated'})
+    else:
+        got = [[x.strip() == 'true' for x in row.strip('[] ').split(';')] for row in vals[0].strip().strip('[]').split('];')]
+        if len(got) != len(truth):
+            bad.append({'why': f'{len(got)} rows for {len(truth)} questions'})
+        for g, t, w in zip(got, truth, what):
+            ck.count('class_table_cells', 3)
+            if g != t:
+                bad.append({'handler': w[0], 'run_class': w[1], 'model [refused; FileNotFoundError; other]': g, 'cpython': t})
+    ck.obligation('correspondence:exception-classes', not bad,
+                  f'{len(truth)} (handler class, run class) pairs x 3 exceptions in flight, catches (spec_class r k) e vs '
+                  f'isinstance in CPython (exhaustive over the translator\'s tables): {len(bad)} disagreements')
+    if bad:
+        ck.tie_broken.append('the exception-class table of SM/AtomicRetry.v / the translator disagrees with CPython')
+        ck.extra['class_table_disagreements'] = bad[:8]
+
+
+class _TheoremsInBackground:
+    """What ck.theorems does (Print Assumptions of every theorem of Props/C12.v: one coqc process, 8-40 s on a loaded
+    machine), started as a separate PROCESS right after the build and collected at the end of the run, so that it costs
+    no wall time.  No thread is involved (the campaigns fork); the output goes to a file, not a pipe."""
+
+    def __init__(self, ck: Ck, props: str) -> None:
+        import re
+        import subprocess
+        from harness.common import ROCQ, _unlimit_stack
+        self.ck, self.props = ck, props
+        self.names = re.findall(r"^\s*(?:Theorem|Lemma|Corollary)\s+([A-Za-z0-9_']+)", (ROCQ / props).read_text(), re.M)
+        d = ck.scratch / 'coq_assumptions_bg'
+        d.mkdir()
+        mod = 'SV.' + props[:-2].replace('/', '.')
+        (d / 'assumptions.v').write_text(f'Require Import {mod}.\n' + ''.join(f'Print Assumptions {n}.\n' for n in self.names))
+        self.out = d / 'out.txt'
+        self.fh = open(self.out, 'w')
+        self.proc = subprocess.Popen(['coqc', '-Q', str(ROCQ), 'SV', '-Q', str(d), 'Scratch', str(d / 'assumptions.v')],
+                                     stdout=self.fh, stderr=subprocess.STDOUT, cwd=d, preexec_fn=_unlimit_stack)
+        self.done = False
+
+    def join(self) -> None:
+        import subprocess
+        from harness.common import _split_assumptions
+        if self.done:
+            return
+        self.done = True
+        ck = self.ck
+        try:
+            rc = self.proc.wait(timeout=900)
+        except subprocess.TimeoutExpired:
+            self.proc.kill()
+            rc = 124
+        self.fh.close()
+        out = self.out.read_text()
+        if rc != 0:
+            ck.obligation(f'assumptions:{self.props}', False, ('coqc timeout after 900 s' if rc == 124 else out[-2000:]))
+            ck.tie_broken.append(f'Print Assumptions failed for {self.props}')
+            return
+        for n, b in zip(self.names, _split_assumptions(out, len(self.names))):
+            ck.axioms[n] = b
+            ck.obligation(f'theorem:{n}', True, 'Qed; axioms: ' + ('none (closed under the global context)' if not b else ', '.join(b)))
 
 
 # =============================================================================================== main
@@ -2053,9 +2716,19 @@ def run(ck: Ck) -> None:
                'A case is distinct by (scenario kind, buffer size, kill/fault index), by the full schedule, by '
                '(pair, schedule, fault index), or by (history, fault/kill index, use); all are non-trivial (each changes where '
                'the protocol is interrupted). '
+               'Exception classes (round 4): in 10 scenarios (7 plain, 3 BSP.save) every injectable operation (of the raw writes: '
+               'the first and the last) x 14 exception classes x {refused for ever, refused 1 / 2 / 3 / 5 times then accepted '
+               '(run only when the persistent run was refused more often than that: otherwise it is the same run)}; in every '
+               'fourth reuse history every non-write operation x {PermissionError, KeyboardInterrupt} x {for ever, twice}; '
+               'distinct by (scenario, operation, class, times). Product: writer A = one object used for the words SS, BS, FS '
+               '(F: the rename of that use is refused; + SB, SSS, FB, SFS and a text writer when escalated), writer B a '
+               'single-use writer of another file, every pair (k1, k2) of completed operations reached as A^k1 B^k2 and for '
+               'every other pair as B^k2 A^k1; distinct by the executed schedule. '
                'Interpreter tie: program = random __exit__ body of the translator subset (2-5 top-level statements, depth <= 3, '
-               '<= 5 file-system calls) x {body returned, body raised} x 10 result oracles; distinct by (program, exc, oracle), '
-               'non-trivial when at least one call is performed.')
+               '<= 5 file-system calls, for-range loops with break / continue / else, handlers naming OSError subclasses / '
+               'KeyboardInterrupt / Exception / BaseException) x {body returned, body raised} x 10 result oracles for the '
+               'generic class + 2 oracles for each of PermissionError / IsADirectoryError (when a handler names it) / '
+               'KeyboardInterrupt; distinct by (program, run class, exc, oracle), non-trivial when at least one call is performed.')
     ck.trusted.append('hand-written machines SM/AtomicWriter.v (flags) and SM/AtomicExit.v (decision trees + interpreter of '
                       'the generated __exit__ program), tied by the proved refinement, by the kernel-computed obligations on '
                       'the generated program and by the executed crash/fault/interleaving correspondence on every run; '
@@ -2063,7 +2736,12 @@ def run(ck: Ck) -> None:
                       '(translate/c12_atomic._object_facts) tied by the executed history and attribute correspondences')
     ck.trusted.append('checks/c12.py interposer: io.FileIO subclass under the BufferedWriter/TextIOWrapper, patched io.open / '
                       'os.mkdir / os.unlink / os.replace; POSIX rename atomicity and O_EXCL are assumed, not verified')
+    ck.trusted.append('SM/AtomicRetry.v: spec_stmt (which handler classes catch an exception of which run class) is a '
+                      'hand-written table, tied to CPython by the interpreter correspondence run per class (mocks raise '
+                      'PermissionError / IsADirectoryError / KeyboardInterrupt) and by the executed class-fault runs')
     ck.assumptions += [
+        'all refused operations of one run raise the same exception class (run class); a refused rename / unlink leaves '
+        'the directory unchanged (what makes a retry a stutter step)',
         'a killed process loses its user-space buffers but the kernel keeps completed write(2)/rename(2) effects '
         '(no power-loss durability is claimed: the code never calls fsync)',
         'os.replace is atomic and the temp file is in the same directory as the destination (aw_tmp_sibling obligation)',
@@ -2075,37 +2753,60 @@ def run(ck: Ck) -> None:
     ok_t = ck.translate('AtomicWriter_gen', c12_atomic.translate)
     side = ck.extra.get('translated', {}).get('AtomicWriter_gen', {})
     built = ok_t and ck.build(['Props/C12.vo', 'Gen/AtomicWriter_gen.vo'])
+    background = None
     if built:
-        ck.theorems('Props/C12.v')
-        ok2, fl2 = 'x_ok aw_proto', 'x_exc aw_proto'
+        background = _TheoremsInBackground(ck, 'Props/C12.v')
+        # which run classes have the exit protocol of the generic class (all of them unless a handler names a subclass of
+        # OSError or KeyboardInterrupt): their model cases are the generic ones (see add_case)
+        same = ck.coq_eval(IMPORTS, ['map (fun r => proto_eqb (class_proto aw_obj r) aw_proto) (run_classes aw_nclasses)'],
+                           name='aw_classes', preamble=PRE)
+        flags = [x.strip() == 'true' for x in same[0].strip('[] \n').split(';')] if same else []
+        nsub = len(side.get('subclasses') or [])
+        names_rc = ['RGeneric', 'RKbd'] + [f'(RSub {i})' for i in range(nsub)]
+        ck.extra['class_same_protocol'] = dict(zip(names_rc, flags)) if len(flags) == len(names_rc) else {}
+        # Every obligation is stated for EVERY run class (what a refused operation raises: an OSError that is no named
+        # subclass, each named subclass of the translator's table, KeyboardInterrupt): `allc P` = P holds for the object
+        # with its __exit__ specialised to each class.  Family membership and the flags are judged on the COLLAPSED
+        # protocol (a refused rename / unlink that is tried again is a stutter step: c12_retry_*), the order / exception
+        # flow predicates on the trees as they are.
+        def allc(body: str) -> str:
+            return (f'all_classes aw_nclasses aw_obj (fun o => let x := obj_proto o in let cx := collapse_proto x in '
+                    f'let cf := derive_cfg cx in {body})')
+        ok2, fl2 = 'x_ok x', 'x_exc x'
         ck.instance_obligations(IMPORTS, {
-            # hypotheses of the theorems in Props/C12.v, for the protocol generated from today's source
-            'proto_ok': 'proto_ok aw_proto',
-            'proto_safe': 'proto_safe aw_proto',
-            'exit_protocol_in_model_family': 'in_family aw_proto',
+            # hypotheses of c12_property / c12_retry_* / c12_protocol_* / c12_reuse_*, for today's object
+            'proto_ok': allc('proto_ok cx'),
+            'proto_safe': allc('proto_safe cx'),
+            'exit_protocol_in_model_family': allc('in_family cx'),
+            'exit_returns_normally_iff_renamed': allc('proto_outcome_ok x'),
             # the same, flag by flag (flags are computed in the kernel from the decision trees of the program)
-            'temp_opened_exclusively_with_retry': 'c_excl aw_cfg',
-            'body_exception_discards_temp': 'is_discard (c_on_exc aw_cfg)',
-            'success_commits_by_replace': 'is_commit (c_on_ok aw_cfg)',
-            'failing_close_still_unlinks_temp': 'c_close_guard aw_cfg',
-            'failing_replace_still_unlinks_temp': 'c_replace_guard aw_cfg',
-            'cfg_ok': 'cfg_ok aw_cfg',
+            'temp_opened_exclusively_with_retry': allc('c_excl cf'),
+            'body_exception_discards_temp': allc('is_discard (c_on_exc cf)'),
+            'success_commits_by_replace': allc('is_commit (c_on_ok cf)'),
+            'failing_close_still_unlinks_temp': allc('c_close_guard cf'),
+            'failing_replace_still_unlinks_temp': allc('c_replace_guard cf'),
+            'cfg_ok': allc('cfg_ok cf'),
             # order of operations / exception flow, judged on the decision trees directly (independent of the family)
-            'exit_no_unmodelled_step': f'no_bad ({ok2}) && no_bad ({fl2})',
-            'temp_closed_before_replace': f'closes_first ({ok2}) && closes_first ({fl2})',
-            'exit_closes_temp_once': f'no_close (close_ok ({ok2})) && no_close (close_fl ({ok2})) && '
-                                     f'no_close (close_ok ({fl2})) && no_close (close_fl ({fl2}))',
-            'exit_failing_close_never_renames': f'no_replace (close_fl ({ok2})) && no_replace (close_fl ({fl2}))',
-            'exit_body_exception_never_renames': f'no_replace ({fl2})',
-            'exit_success_renames_after_close': f'success_commits ({ok2})',
-            'exit_every_failure_path_unlinks_temp': f'cleans ({ok2}) false && cleans ({fl2}) false',
-            'exit_never_swallows_an_exception': f'propagates ({ok2}) false && propagates ({fl2}) true',
-            'exit_success_returns_normally': f'ok_path_returns ({ok2})',
-            'exit_without_enter_does_nothing': 'unentered_exit_is_inert aw_obj',
+            'exit_no_unmodelled_step': allc(f'no_bad ({ok2}) && no_bad ({fl2})'),
+            'temp_closed_before_replace': allc(f'closes_first ({ok2}) && closes_first ({fl2})'),
+            'exit_closes_temp_once': allc(f'no_close (close_ok ({ok2})) && no_close (close_fl ({ok2})) && '
+                                          f'no_close (close_ok ({fl2})) && no_close (close_fl ({fl2}))'),
+            'exit_failing_close_never_renames': allc(f'no_replace (close_fl ({ok2})) && no_replace (close_fl ({fl2}))'),
+            'exit_body_exception_never_renames': allc(f'no_replace ({fl2})'),
+            'exit_success_renames_after_close': allc(f'success_commits ({ok2})'),
+            'exit_every_failure_path_unlinks_temp': allc(f'cleans ({ok2}) false && cleans ({fl2}) false'),
+            # (on the collapsed trees: a refused rename that is accepted at the next attempt is handled, not swallowed;
+            # that the with statement returns normally only after a rename is exit_returns_normally_iff_renamed)
+            'exit_never_swallows_an_exception': allc('propagates (x_ok cx) false && propagates (x_exc cx) true'),
+            'exit_success_returns_normally': allc(f'ok_path_returns ({ok2})'),
+            'exit_without_enter_does_nothing': allc('unentered_exit_is_inert o'),
             # one object, several `with` blocks (c12_reuse_* speak about an object with reuse_indep = true): whatever
             # the earlier uses left in the instance attributes, the next use runs the protocol of a fresh object
-            'reuse_exit_protocol_independent_of_earlier_uses': 'reuse_indep aw_obj',
-            'reuse_exit_always_clears_the_temp_handle': 'exit_always_leaves aw_obj 0 VNone',
+            'reuse_exit_protocol_independent_of_earlier_uses': allc('reuse_indep o'),
+            'reuse_exit_always_clears_the_temp_handle': allc('exit_always_leaves o 0 VNone'),
+            # what make_tempfile does before mkdir / the temp-name loop touches nothing whenever no temp file is open
+            # (the model enters a use with mkdir): c12_entry_prologue_keyed_on_stale_name_refuted is the wrong shape
+            'reuse_entry_touches_nothing_before_creating_its_temp_file': 'entry_inert aw_obj aw_entry_prog',
             'reuse_fresh_object_is_unentered': 'init_unentered aw_obj',
             'reuse_enter_binds_handle_and_temp_name': 'enter_binds aw_obj',
             'temp_is_sibling_of_destination': 'aw_tmp_sibling',
@@ -2130,18 +2831,23 @@ def run(ck: Ck) -> None:
     (ck.scratch / 'cwd').mkdir(exist_ok=True)
     os.chdir(ck.scratch / 'cwd')       # relative temp names would land here, where they are noticed
     try:
-        _campaigns(ck, built)
+        _campaigns(ck, built, background)
     finally:
         os.chdir(cwd0)
+        if background is not None:
+            t1 = time.time()
+            background.join()
+            ck.extra.setdefault('stage_seconds', {})['wait-for-print-assumptions'] = round(time.time() - t1, 1)
 
 
-def _campaigns(ck: Ck, built: bool) -> None:
+def _campaigns(ck: Ck, built: bool, background: '_TheoremsInBackground | None' = None) -> None:
     import time
     stage: dict[str, float] = {}
     ck.extra['stage_seconds'] = stage
     stage['translate+build+obligations'] = round(time.time() - ck.t0, 1)
     t1 = time.time()
     if built:
+        class_table_correspondence(ck)
         interp_correspondence(ck)
     stage['interpreter'] = round(time.time() - t1, 1)
     t1 = time.time()
@@ -2162,8 +2868,12 @@ def _campaigns(ck: Ck, built: bool) -> None:
     t1 = time.time()
     two_writer_campaign(ck, bool(built))
     stage['two'] = round(time.time() - t1, 1)
+    t1 = time.time()
+    product_campaign(ck, bool(built))
+    stage['product'] = round(time.time() - t1, 1)
     reuse_keys = [v['key'] for v in ck.violations if v['key'].startswith('reuse:')]
     keys = {v['key'].removeprefix('bsp-save:').removeprefix('reuse:') for v in ck.violations}
+    class_keys = {k for k in keys if k.startswith('errclass:')}
     # which failed obligations a concrete violation (with a replay) explains
     temp_left = any(k.startswith(('temp-left-after-', 'two-writers:temp-left', 'unexpected-files')) for k in keys)
     dest_bad = any('mixture' in k or k.startswith(('dest-changed', 'new-content', 'old-content', 'wrong-content',
@@ -2191,6 +2901,10 @@ def _campaigns(ck: Ck, built: bool) -> None:
          ['instance:temp_loop_']),
         (bool(ck.extra.get('bsp_violations')), ['instance:bsp_', 'translate:']),
         (bool(reuse_keys), ['instance:reuse_', 'instance:exit_without_enter', 'translate:', 'correspondence:']),
+        # a refused operation of some exception class, persistent or transient, with a failing input
+        (bool(class_keys), ['instance:', 'translate:', 'correspondence:']),
+        (any(k.startswith('two-writers-reuse:') for k in keys),
+         ['instance:reuse_', 'instance:exit_without_enter', 'translate:', 'correspondence:']),
     ]
     for cond, names in table:
         if cond:
@@ -2217,7 +2931,7 @@ def replay(data: dict) -> int:
         return 0
     root = tempfile.mkdtemp(prefix='c12_replay_', dir='/var/tmp')
     try:
-        if r['mode'] in ('crash', 'fault'):
+        if r['mode'] in ('crash', 'fault', 'fault-class'):
             sc = dict(r['scenario'])
             sc['init'] = {n: bytes.fromhex(v) for n, v in sc['init'].items()}
             sc['chunks'] = [bytes.fromhex(c) if not sc.get('text') else c for c in sc.get('chunks', [])]
@@ -2229,8 +2943,13 @@ def replay(data: dict) -> int:
                 rc, lst = run_crash(sc, os.path.join(root, 'd'), r['k'])
                 print(f'killed after {r["k"]} operations (child exit {rc})')
             else:
-                res = run_single(sc, os.path.join(root, 'd'),
-                                 fault_at=frozenset(r['k']) if isinstance(r['k'], list) else r['k'])
+                if r['mode'] == 'fault-class':
+                    print('plan  :', r['plan'], '(operation `at` is refused with `cls`; times = None: so is every further '
+                          'attempt of the same operation, k: the first k attempts)')
+                    res = run_single(sc, os.path.join(root, 'd'), plan=r['plan'])
+                else:
+                    res = run_single(sc, os.path.join(root, 'd'),
+                                     fault_at=frozenset(r['k']) if isinstance(r['k'], list) else r['k'])
                 lst = res['listing']
                 print('operations:', [(o['op'], o['name'], o['res']) for o in res['ops']])
                 print('outcome:', res['outcome'])
@@ -2246,10 +2965,23 @@ def replay(data: dict) -> int:
                 print('after :', {k: v[:40] for k, v in lst.items()})
             else:
                 k = r['k']
-                res = run_history(hs, os.path.join(root, 'd'), fault_at=frozenset(k) if isinstance(k, list) else k)
+                if isinstance(k, dict):
+                    print('plan  :', k, '(operation `at` is refused with `cls`; times None: every further attempt as well)')
+                    res = run_history(hs, os.path.join(root, 'd'), plan=k)
+                else:
+                    res = run_history(hs, os.path.join(root, 'd'), fault_at=frozenset(k) if isinstance(k, list) else k)
                 for u, letter in enumerate(hs['word']):
                     print(f'use {u + 1} ({letter}):', [(o['op'], o['name'], o['res']) for o in res['ops'] if o['u'] == u])
                     print('   outcome:', res['outcomes'][u], ' directory:', {k: v[:40] for k, v in res['listings'][u + 1].items()})
+        elif r['mode'] == 'product':
+            A = dict(r['a']); B = dict(r['b'])
+            A['uses'] = [{**u, 'chunks': [c if A.get('text') else bytes.fromhex(c) for c in u['chunks']]} for u in A['uses']]
+            B['chunks'] = [bytes.fromhex(c) for c in B['chunks']]
+            init = {n: bytes.fromhex(v) for n, v in r['init'].items()}
+            res = run_two((A, B), os.path.join(root, 'd'), r['schedule'], init, fault_at=r.get('fault_at'))
+            print('operations:', [(o['w'], o['u'], o['op'], o['name'], o['res']) for o in res['ops']])
+            print('outcomes of the uses of writer 0:', res['per_use'][0], ' writer 1:', res['per_use'][1])
+            print('after :', res['listing'])
         elif r['mode'] == 'two':
             sa = dict(r['a']); sb = dict(r['b'])
             for s in (sa, sb):
